@@ -77,6 +77,15 @@ def gen_cases(rng, tier):
         c.pop("dtype_pos", None), c.pop("dtype_neg", None)
         c["targets"] = [enc(t) for t in rng.sample(EXTREMES, 4)]
         cases.append(c)
+    # derived objects: smoothed replacement bootstrap samples (arbitrary doubles)
+    for _j in range({"quick": 24, "thorough": 240, "search": 80}[tier]):
+        c = tc.thr_case(rng, False)
+        if not (c["pos"] and c["neg"]):
+            continue
+        c["via"], c["via_seed"], c["dtype"] = "smoothed", rng.randint(0, 10 ** 6), "float64"
+        c.pop("dtype_pos", None), c.pop("dtype_neg", None)
+        c["targets"] = [enc(t) for t in rng.sample(EXTREMES, 4)]
+        cases.append(c)
     # targets strictly beyond the scale on arbitrary doubles, linear: both neighbours clip to the end sample s and the
     # interpolation la*s + (1-la)*s rounds (sometimes inwards) before the end-of-range rule replaces it
     for _ in range({"quick": 160, "thorough": 1500, "search": 600}[tier]):
@@ -103,6 +112,7 @@ def run_impl(case):
 
 
 def coq_term(case, res):
+    case = tc.effective(case, res)
     if "ok" not in res:
         return "false"
     r = res["ok"]
@@ -112,6 +122,7 @@ def coq_term(case, res):
 
 
 def oracle(case, res):
+    case = tc.effective(case, res)
     if "ok" not in res:
         return [("C03/exception", f"threshold_at_{case['metric']} raised {res.get('err')}: {res.get('msg')}")]
     r = res["ok"]
